@@ -337,11 +337,57 @@ def r15f(F):
 	out.append(Result('15.f', oks, ('ok:' if oks else 'shape:') + 'send-from-offset', 'send_data is given the buffer from the current offset on', len(sd), where=F.where(fn)))
 	return out
 
+def r15g(F):
+	"""inbound stream reassembly: once a message body has been decrypted, the reader is back in the expect-a-length-header state (flag set, buffer
+	sized for the 18-byte header) before it looks at the next bytes or returns Ok - on every path, including the arms that merely ignore an undecodable message"""
+	out = []
+	fn = PM + 'do_read_event'
+	fu = F.func(fn)
+	body = sites_call(fu, [PCE + 'PeerChannelEncryptor::decrypt_message'])
+	hdr = sites_call(fu, [PCE + 'PeerChannelEncryptor::decrypt_length_header'])
+	if len(body) != 1 or len(hdr) != 1:
+		return [Result('15.g', False, 'anchor:frame-decrypt-sites', 'do_read_event: expected one decrypt_length_header and one decrypt_message call (found %d / %d)' % (len(hdr), len(body)), where=F.where(fn))]
+	set_true, set_false = set(), set()
+	for b, si in sites_field_write(fu, 'pending_read_is_header'):
+		rv = fu.blocks[b]['s'][si][2]
+		if rv[0] == 'use' and rv[1][0] == 'k':
+			(set_true if rv[1][1].get('v') else set_false).add(b)
+	heads = back_edge_heads(fu) | {b for b in range(len(fu.blocks)) if fu.blocks[b]['t'][1] == 'falseunwind'}
+	oks = set(ok_return_blocks(fu, variants=('Ok',)))
+	live = fu.reach([0])
+	# the outermost loop over the input bytes: the head from which the body decrypt is reachable and which is reachable from it
+	outer = {h for h in heads if h in live and body[0] in fu.reach([h]) and h in fu.reach(body)}
+	if not outer or not set_true:
+		return [Result('15.g', False, 'anchor:read-loop', 'do_read_event: read loop head / header-state stores not found', where=F.where(fn))]
+	# start on the Ok arm of the decrypt result (the macro around it also has ignore-and-continue arms for error actions a decrypt never returns)
+	def ok_arm(cb):
+		ds = call_decisions(fu, cb, 'result')
+		return sorted({e[1] for d in ds for e in d.true_edges})
+	after_body = ok_arm(body)
+	out += P5_must_pass(F, '15.g', fu, after_body, sorted(outer | oks), set_true, 'pending_read_is_header = true after a decrypted body, before the next loop iteration or Ok return', key='header-state-restored-after-body')
+	# and symmetrically: after a decrypted length header the reader expects a body
+	after_hdr = ok_arm(hdr)
+	if not after_body or not after_hdr:
+		return [Result('15.g', False, 'anchor:decrypt-result-branch', 'do_read_event: the decrypt results are no longer branched on', where=F.where(fn))]
+	out += P5_must_pass(F, '15.g', fu, after_hdr, sorted(outer | oks), set_false, 'pending_read_is_header = false after a decrypted length header', key='body-state-after-header')
+	# the buffer is re-sized for the header where the flag is set back
+	ex = Expr(fu)
+	rs = []
+	for b, ci in fu.calls():
+		if norm(ci.get('f') or '').endswith('Vec::resize') and len(ci['args']) >= 2:
+			e = ex.of_operand(ci['args'][1])
+			if e[0] == 'const' and e[1] == 18:
+				rs.append(b)
+	ok = any(b2 in fu.reach([r], removed_blocks=outer) for r in rs for b2 in set_true if b2 in fu.reach(after_body)) if rs else False
+	out.append(Result('15.g', ok, ('ok:' if ok else 'shape:') + 'header-buffer-resized', 'do_read_event resizes the read buffer to the 18-byte encrypted length header when it returns to the header state (%d resize(18) site(s))' % len(rs), len(rs), where=F.where(fn)))
+	return out
+
 RULES = [
 	('15.a', 'nothing is handed to the handlers before Init; second Init / non-Init first message / handler refusal end in Err', r15a),
 	('15.b', 'protocol handler methods are reached only downstream of the Init gate', r15b),
 	('15.c', 'do_read_event: every handshake / decrypt / decode result is branched on; the body reaches handle_message only on success', r15c),
 	('15.d', 'AEAD discipline: same rotation threshold both ways, nonce +1 per operation (receive: after authentication), MAC failure is an error, size limits', r15d),
 	('15.f', 'outbound stream: partial writes resume at old offset + bytes accepted; a message is popped only when complete', r15f),
+	('15.g', 'inbound reassembly: header state restored after every decrypted body (also on ignore-and-continue arms), body state after every header', r15g),
 	('15.e', 'messages are encrypted / decrypted only in NoiseState::Finished, entered only by an authenticated act', r15e),
 ]
